@@ -93,6 +93,10 @@ def call(px, st, name, t, args, fid, fn):
         return [(st, pure('default', (('ty', name),)))]
     if n.endswith('Vec::<T>::new'):
         return [(st, pure('Vec::new', ()))]
+    if n.endswith('hint::must_use') and len(args) == 1:
+        return [(st, args[0])]          # identity (lint helper inside format!)
+    if re.search(r'(^|::)fmt::format$', n) and len(args) == 1:
+        return [(st, pure(n, px.snap_args(st, args)))]
 
     # ---- Try / residuals
     if n.endswith('as std::ops::Try>::branch'):
@@ -297,6 +301,22 @@ def call(px, st, name, t, args, fid, fn):
                         outs.append((s3, ('adt', 'core::std::option::Option', 'Some', (('adt', 'core::std::result::Result', 'Ok', (px.pos_payload(s3, inner),)),))))
         return outs
 
+    if n.endswith('::transpose') and 'option::Option::<std::result::Result<T, E>>' in n:
+        # Some(Ok(x)) -> Ok(Some(x)); Some(Err(e)) -> Err(e); None -> Ok(None)
+        outs = []
+        o = args[0]
+        for tag, s2 in px.decide_tag(st, o):
+            if tag == 'neg':
+                outs.append((s2, ('adt', 'core::std::result::Result', 'Ok', (('adt', 'core::std::option::Option', 'None', ()),))))
+            else:
+                inner = px.pos_payload(s2, o)
+                for tag2, s3 in px.decide_tag(s2, inner):
+                    if tag2 == 'neg':
+                        outs.append((s3, ('adt', 'core::std::result::Result', 'Err', (px.neg_payload(s3, inner),))))
+                    else:
+                        outs.append((s3, ('adt', 'core::std::result::Result', 'Ok', (('adt', 'core::std::option::Option', 'Some', (px.pos_payload(s3, inner),)),))))
+        return outs
+
     # ---- panics
     if n.startswith('core::panicking::') or n.endswith('::begin_panic') or 'panicking::panic' in n or n.endswith('option::unwrap_failed') \
             or n.endswith('result::unwrap_failed') or n.endswith('option::expect_failed') or 'slice::index::slice_' in n and n.endswith('_fail'):
@@ -371,6 +391,21 @@ def call(px, st, name, t, args, fid, fn):
             return [(st, ('pred', 'inrange', rng[3][0][1], rng[3][1][1] - 1, x))]
         return [(st, pure('range_contains', (rng, x)))]
 
+    if re.search(r'vec::Vec::<T, A>::(is_empty|len)$', n):
+        # a vector copied from a constant array / slice literal has that length (`set_variants(&[])`)
+        v = px.deref_value(st, args[0])
+        if v[0] == 'pure' and v[1].split('::')[-1] in ('to_vec', 'to_owned', 'into_vec') and len(v[2]) == 1:
+            src = v[2][0]
+            for _ in range(4):
+                if src[0] in ('ref', 'cref'):
+                    try:
+                        src = px.deref_value(st, src)
+                    except Exception:
+                        break
+            k = len(src[1]) if src[0] == 'array' else None
+            if k is not None:
+                return [(st, INT(k) if n.endswith('::len') else INT(1 if k == 0 else 0))]
+
     # ---- tinystr
     if n.endswith('TinyAsciiStr::<N>::from_bytes') or n.endswith('TinyAsciiStr::<N>::from_str') or n.endswith('TinyAsciiStr<N> as std::str::FromStr>::from_str'):
         N = tiny_n(t)
@@ -379,6 +414,12 @@ def call(px, st, name, t, args, fid, fn):
             N = int(m.group(1)) if m else None
         if N is not None:
             return [(st, ('tinyres', px.subject_of(st, args[0]), N))]
+    if n.endswith('TinyAsciiStr::<N>::len') or n.endswith('TinyAsciiStr::<N>::is_empty'):
+        # a TinyAsciiStr built from a byte string holds exactly its bytes (no NUL, at most N): its length is the input's
+        tv = px.deref_value(st, args[0])
+        if tv[0] == 'tiny':
+            ln = ('len', tv[1])
+            return [(st, ln if n.endswith('::len') else ('bin', 'Eq', ln, INT(0)))]
     m = re.search(r'TinyAsciiStr::<N>::is_ascii_(alphabetic|alphanumeric|numeric)$', n)
     if m:
         tv = px.deref_value(st, args[0])
@@ -634,7 +675,7 @@ TOTAL_EXTRA_RE = re.compile(r'''(
         from_[lbn]e_bytes|to_[lbn]e_bytes|count_ones|count_zeros|leading_zeros|trailing_zeros|swap_bytes|to_be|to_le|from_be|from_le|min|max|is_power_of_two|rotate_left|rotate_right|from_str_radix|MAX|MIN)$|
     char::methods::<impl\ char>::(is_ascii\w*|to_ascii_\w+|eq_ignore_ascii_case|is_alphabetic|is_alphanumeric|is_numeric|is_lowercase|is_uppercase|is_whitespace|is_control|len_utf8|
         to_lowercase|to_uppercase|encode_utf8|from_u32)$|char::convert::<impl\ std::convert::(From|TryFrom)<\w+>\ for\ \w+>::(from|try_from)$|
-    mem::(swap|replace|take|drop|size_of|size_of_val|discriminant)$|cmp::(min|max|min_by|max_by|min_by_key|max_by_key)$|cmp::Ord::(cmp|min|max|clamp)$|cmp::Ordering::(then|then_with|reverse|is_eq|is_ne|is_lt|is_le|is_gt|is_ge)$|
+    mem::(swap|replace|take|drop|size_of|size_of_val|discriminant)$|hint::(must_use|black_box)$|cmp::(min|max|min_by|max_by|min_by_key|max_by_key)$|cmp::Ord::(cmp|min|max|clamp)$|cmp::Ordering::(then|then_with|reverse|is_eq|is_ne|is_lt|is_le|is_gt|is_ge)$|
     cmp::(PartialOrd|PartialEq|Ord)::(lt|le|gt|ge|eq|ne|partial_cmp|cmp)$|as\ std::cmp::(PartialOrd|PartialEq|Ord)(<[^>]*>)?>::(lt|le|gt|ge|eq|ne|partial_cmp|cmp)$|
     option::Option::<T>::(is_some|is_none|is_some_and|is_none_or|as_ref|as_mut|as_deref|as_deref_mut|map|map_or|map_or_else|ok_or|ok_or_else|and|and_then|or|or_else|xor|filter|take|replace|insert|
         get_or_insert|get_or_insert_with|zip|unzip|unwrap_or|unwrap_or_else|unwrap_or_default|iter|iter_mut|cloned|copied|flatten|transpose|inspect|take_if)$|
